@@ -73,3 +73,31 @@ Proof.
   - revert H2. apply forallb2_Forall2_gen. intros x y. apply forallb2_Forall2_gen. apply cplx_close_sound.
   - revert H3. apply forallb2_Forall2_gen. intros x y. apply forallb2_Forall2_gen. apply cplx_close_sound.
 Qed.
+
+(* ---- the checker's constructor establishes wf_mesh, so C11_mesh_fftn applies to the mesh the
+   checker builds from the recorded input, and its conclusions hold for the OBSERVED k-mesh's
+   counts, dimension names and units ---- *)
+From DF Require Import C01_sound C11_mesh.
+
+Lemma build_wf11 p1 p2 n_ ds us m : Check_C11.build p1 p2 n_ ds us = OK m -> wf_mesh m.
+Proof.
+  unfold Check_C11.build. intro H.
+  destruct (mk_region p1 p2 (Some ds) (Some us) (1 # 1000000000000)) as [r|e] eqn:Er; simpl in H; [|discriminate].
+  eapply mk_mesh_n_wf; [|exact H].
+  eapply mk_region_wf; [exact Er | lra | discriminate].
+Qed.
+
+Theorem accepted_kmesh p1 p2 n_ ds us rfft lo hi k ds' us' :
+  check_C11 (CMeshF p1 p2 n_ ds us rfft (Some (lo, hi, k, ds', us'))) = true ->
+  exists m, Check_C11.build p1 p2 n_ ds us = OK m /\ wf_mesh m /\
+    k = kshape rfft (n m) /\
+    ds' = map kdim (dims (reg m)) /\
+    us' = map kunit (units (reg m)).
+Proof.
+  intro H. destruct (check_meshf_sound _ _ _ _ _ _ _ _ _ _ _ H) as (m & km & Hb & Hk & Hn & Hd & Hu).
+  pose proof (build_wf11 _ _ _ _ _ _ Hb) as Hwf.
+  destruct (mesh_fftn_ok m rfft Hwf) as (km' & Hk' & Hn' & Hd' & Hu' & _).
+  rewrite Hk in Hk'. inversion Hk'; subst km'.
+  exists m. split; [exact Hb|]. split; [exact Hwf|].
+  split; [congruence|]. split; congruence.
+Qed.
